@@ -41,7 +41,8 @@ package calendar
 //@ # shape facts of the real tables that the model of *LunarYear relies on (15 months, 31 terms, integral first days)
 //@ spec func tableShape(y int) bool
 //@   = llen(yt(y).GetMonths()) == 15 && len(yt(y).GetJieQiJulianDays()) == 31 && yt(y).GetYear() == y &&
-//@     all(0, 14, func(i int) bool { return ytMonth(y, i).GetFirstJulianDay() == float64(mF(y, i)) && ytMonth(y, i).GetZhiIndex() == modf(mI(y, i)+1, 12) })
+//@     all(0, 14, func(i int) bool { return ytMonth(y, i).GetFirstJulianDay() == float64(mF(y, i)) && ytMonth(y, i).GetZhiIndex() == modf(mI(y, i)+1, 12) &&
+//@       1 <= mI(y, i) && mI(y, i) <= 13 && mM(y, i) != 0 && -12 <= mM(y, i) && mM(y, i) <= 12 && 28 <= mD(y, i) && mD(y, i) <= 30 })
 
 //@ axiom tableShapeAx(y int) [C06 C01]
 //@   requires 0 <= y && y <= 9999
@@ -116,7 +117,14 @@ package calendar
 
 //@ # ================================================================ LunarMonth / LunarYear objects
 
+//@ # LunarMonth objects are built only by LunarYear.compute (trusted); their field ranges are part of tableShape (stand-in)
 //@ type LunarMonth established_by NewLunarMonth
+//@   invariant 1 <= self.index && self.index <= 13 && 0 <= self.zhiIndex && self.zhiIndex <= 11 && self.month != 0 && -12 <= self.month && self.month <= 12 &&
+//@             28 <= self.dayCount && self.dayCount <= 30 && -1 <= self.year && self.year <= 10000
+
+//@ func NewLunarMonth(lunarYear int, lunarMonth int, dayCount int, firstJulianDay float64, index int) *LunarMonth [C06 C08]
+//@   requires 1 <= index && index <= 13 && lunarMonth != 0 && -12 <= lunarMonth && lunarMonth <= 12 && 28 <= dayCount && dayCount <= 30 && -1 <= lunarYear && lunarYear <= 10000
+//@   ensures result.year == lunarYear && result.month == lunarMonth && result.dayCount == dayCount && result.firstJulianDay == firstJulianDay && result.index == index && result.zhiIndex == modf(index+1, 12)
 
 //@ spec func monthIs(m *LunarMonth, y int, i int) bool
 //@   = m != nil && m.year == mY(y, i) && m.month == mM(y, i) && m.dayCount == mD(y, i) && m.firstJulianDay == float64(mF(y, i)) && m.index == mI(y, i) && m.zhiIndex == modf(mI(y, i)+1, 12)
@@ -646,7 +654,40 @@ package calendar
 //@     monthLocateBack(s.year, midx(s.year, sjdn(s)))
 //@     assert(lunarExists(l.year, l.month, l.day))
 
+//@ # ================================================================ invariants of the remaining object types
+//@ type NineStar established_by NewNineStar
+//@   invariant 0 <= self.index && self.index <= 8
+
+//@ func NewNineStar(index int) *NineStar [C16 C08]
+//@   requires 0 <= index && index <= 8
+//@   ensures result.index == index
+
+//@ type EightChar established_by NewEightChar EightChar.SetSect
+//@   invariant (self.sect == 1 || self.sect == 2) && self.lunar != nil
+
+//@ # the hour object of a lunar date carries the same hour pillar as the lunar date itself
+//@ type LunarTime established_by NewLunarTime
+//@   invariant self.lunar != nil && self.zhiIndex == self.lunar.timeZhiIndex && self.ganIndex == self.lunar.timeGanIndex &&
+//@             0 <= self.zhiIndex && self.zhiIndex <= 11 && 0 <= self.ganIndex && self.ganIndex <= 9
+
+//@ func NewLunarTime(lunarYear int, lunarMonth int, lunarDay int, hour int, minute int, second int) *LunarTime [C11 C08 C07]
+//@   requires 2 <= lunarYear && lunarYear <= 9997
+//@   panics_iff !(lunarExists(lunarYear, lunarMonth, lunarDay) && validHms(hour, minute, second))
+//@   ensures result.lunar.year == lunarYear && result.lunar.month == lunarMonth && result.lunar.day == lunarDay && result.lunar.hour == hour && result.lunar.minute == minute && result.lunar.second == second
+//@   ensures sjdn(result.lunar.solar) == lunarJdn(lunarYear, lunarMonth, lunarDay)
+
 //@ # ================================================================ C08: every exported zero-argument accessor is total
 //@ # Safety-only contracts: under the receiver's type invariant the method returns without panicking - every index is
 //@ # in range, no nil dereference, no failing type assertion, no division by zero, every callee precondition holds.
-//@ sweep Solar Lunar LunarYear LunarMonth LunarTime EightChar Yun DaYun LiuNian LiuYue XiaoYun NineStar Tao Foto SolarWeek SolarMonth SolarSeason SolarHalfYear SolarYear JieQi Fu ShuJiu TaoFestival FotoFestival [C08]
+//@ sweep Solar: inYears(self.year) [C08]
+//@ sweep SolarWeek: weekOK(self) && jdnInRange(jdn(self.year, self.month, self.day)-6) && jdnInRange(jdn(self.year, self.month, self.day)+6) [C08]
+//@ sweep SolarMonth: inYears(self.year) && 1 <= self.month && self.month <= 12 [C08]
+//@ sweep SolarSeason: inYears(self.year) && 1 <= self.month && self.month <= 12 [C08]
+//@ sweep SolarHalfYear: inYears(self.year) && 1 <= self.month && self.month <= 12 [C08]
+//@ sweep SolarYear: inYears(self.year) [C08]
+//@ sweep Yun: self.lunar != nil && 0 <= self.startYear && self.startYear <= 10 && 0 <= self.startMonth && self.startMonth <= 11 && 0 <= self.startDay && self.startDay <= 29 && 0 <= self.startHour && self.startHour <= 23 && self.lunar.solar.year <= 9900 [C08]
+//@ sweep DaYun: self.lunar != nil && self.yun != nil && self.yun.lunar != nil && 0 <= self.index && self.index <= 9 && 0 <= self.startYear && self.startYear <= 10000 && self.startYear <= self.endYear && self.endYear <= self.startYear+10 && 1 <= self.startAge && self.startAge <= 200 [C08]
+//@ sweep LiuNian: self.lunar != nil && self.daYun != nil && 0 <= self.index && self.index <= 9 && 0 <= self.daYun.index && self.daYun.index <= 9 && 1 <= self.daYun.startAge && self.daYun.startAge <= 200 && 0 <= self.year && self.year <= 10000 [C08]
+//@ sweep LiuYue: self.liuNian != nil && 0 <= self.index && self.index <= 11 && 0 <= self.liuNian.year && self.liuNian.year <= 10000 [C08]
+//@ sweep XiaoYun: self.lunar != nil && self.daYun != nil && 0 <= self.index && self.index <= 9 && 0 <= self.daYun.index && self.daYun.index <= 9 && 1 <= self.daYun.startAge && self.daYun.startAge <= 200 [C08]
+//@ sweep Lunar LunarYear LunarMonth LunarTime EightChar NineStar Tao Foto JieQi Fu ShuJiu TaoFestival FotoFestival [C08]
